@@ -1,7 +1,7 @@
 (** Property checkers evaluated on the implementation's observed outputs (TG cases). *)
 From Coq Require Import List NArith String Bool.
 From V Require Import Base.Util Base.Strings Base.Result Model.Registry Model.Settings Model.Subst
-  Model.TypePath Model.Derives Model.Generate Model.Emit Model.Equal Model.Builders Corr.RunTG.
+  Model.TypePath Model.Derives Model.Generate Model.Emit Model.Equal Model.Builders Checkers.Parse Checkers.Sem Corr.RunTG.
 Import ListNotations.
 Open Scope string_scope. Open Scope list_scope.
 
@@ -20,10 +20,85 @@ Definition prop_same_tokens (p : tg_pair) : bool := true.
 Definition prop_sorted_derives (p : tg_pair) : bool := true.
 Definition prop_frame (p : tg_pair) : bool := true.
 Definition prop_switches (p : tg_pair) : bool := true.
-Definition prop_faithful (c : tg_case) : bool := true.
-Definition hyp_coincidence_free (c : tg_case) : bool := true.
-Definition prop_syn_parses (c : tg_case) : bool := true.
-Definition prop_closed (c : tg_case) : bool := true.
+Definition fenv_of (s : settings) : fenv :=
+  mk_fenv (s_root s) (toks_to_segs (alloc_tokens (s_alloc s))) (option_map toks_to_segs (s_compact s))
+          (option_map toks_to_segs (s_bits s)) (s_subs s) (s_codec s).
+
+(** item-eligible: what the generation loop turns into an item *)
+Definition item_eligible (s : settings) (t : ty) : bool :=
+  is_composite_or_variant (t_def t) && negb (subs_contains (s_subs s) (t_path t)) &&
+  match namespace (t_path t) with [] => false | _ => true end.
+
+(** [skeleton_consistent] (DESIGN 3.3): every item-eligible entry has the same
+    skeleton as the first entry with its path; skeletons are compared through
+    their tokens, which contain everything but the concrete ids *)
+Definition skeleton_tokens (r : registry) (s : settings) (t : ty) : option tokens :=
+  match create_type_ir r s t (mk_flat derives_empty []) with
+  | Ok (Some ir) => match type_ir_tokens s ir with Ok tk => Some tk | _ => None end
+  | _ => None
+  end.
+
+Definition skeleton_consistentb (r : registry) (s : settings) : bool :=
+  forallb (fun e =>
+             let t := snd e in
+             if item_eligible s t then
+               match find (fun e' => path_eqb (t_path (snd e')) (t_path t) && item_eligible s (snd e')) r with
+               | Some e' => match skeleton_tokens r s t, skeleton_tokens r s (snd e') with
+                            | Some a, Some b => tokens_eqb a b
+                            | _, _ => false
+                            end
+               | None => false
+               end
+             else true) r.
+
+Definition hyp_coincidence_free (c : tg_case) : bool :=
+  skeleton_consistentb (tg_reg c) (settings_of (tg_spec c)).
+
+(** C01 on the observed output: every id whose path was resolved is faithfully
+    represented by the parsed observed module *)
+Definition faithful_obs (c : tg_case) : bool :=
+  let r := tg_reg c in
+  let s := settings_of (tg_spec c) in
+  match tg_gen c with
+  | OOk toks =>
+      match parse_module toks with
+      | None => false
+      | Some m =>
+          forallb (fun '(id, o) =>
+                     match o with
+                     | OOk pt => match parse_type pt with
+                                 | Some t => faithful_id r (fenv_of s) m id t
+                                 | None => false
+                                 end
+                     | _ => true
+                     end) (combine (ids_of r) (tg_paths c))
+      end
+  | _ => true
+  end.
+
+Definition prop_faithful (c : tg_case) : bool :=
+  if hyp_coincidence_free c then faithful_obs c else true.
+Definition prop_syn_parses (c : tg_case) : bool := tg_syn_ok c.
+Definition parsed (c : tg_case) : option pmod :=
+  match tg_gen c with OOk t => parse_module t | _ => None end.
+Definition prop_closed (c : tg_case) : bool :=
+  let s := settings_of (tg_spec c) in
+  match tg_gen c with
+  | OOk t =>
+      match parse_module t with
+      | Some m =>
+          closedb (s_root s) m &&
+          forallb (fun o => match o with
+                            | OOk pt => match parse_type pt with
+                                        | Some ty => path_closedb (s_root s) m ty
+                                        | None => false
+                                        end
+                            | _ => true
+                            end) (tg_paths c)
+      | None => false
+      end
+  | _ => true
+  end.
 Definition prop_subst (c : tg_case) : bool := true.
 Definition hyp_has_subst (c : tg_case) : bool := true.
 Definition prop_derives_exact (c : tg_case) : bool := true.
